@@ -7,7 +7,7 @@
 From hls Require Import Base Float Lex Kinds Types Tags Line Keys Media.
 From hls.Generated Require Import Tables.
 From hls Require Import Master.
-From hls.Proofs Require Import Build Lexical Values TextLines AttrText TagText TagTextMedia TagTextVariant TagTextSegment TagTextDateRange Sweep SweepFloat SweepAll FloatRound.
+From hls.Proofs Require Import Build Lexical Values TextLines AttrText TagText TagTextMedia TagTextVariant TagTextSegment TagTextDateRange FloatRound.
 Open Scope N_scope.
 
 Theorem C18_uint : forall w n, n < 2 ^ w -> parse_uint w (print_uint n) = Some n.
@@ -190,32 +190,6 @@ Check C18_tags_media :
 Print Assumptions C18_tags_media.
 
 (* the float hypotheses hold for sample values (decidable, evaluated) *)
-(* the float / duration hypotheses DECIDED on bounded decimal grids (every value evaluated by the kernel's VM, lifted with
-   forallb_forall; the bound is part of the statement): every duration below 12 s with millisecond precision, every frame rate
-   that is a multiple of 0.01 up to 61.00 plus the standard rates with three decimals (23.976 ... 240), every time offset
-   that is a multiple of 0.1 with |x| <= 300.  The unbounded statements (every finite f32, every duration below 10^6 s with
-   nanosecond precision) stay hypotheses of the tag theorems. *)
-Theorem C18_duration_ms_sweep : forall ms, ms < 12000 -> dur_rt (ms * 1000000) = true.
-Proof. exact duration_ms_sweep. Qed.
-Check C18_duration_ms_sweep : forall ms, ms < 12000 -> dur_rt (ms * 1000000) = true.
-Print Assumptions C18_duration_ms_sweep.
-
-Theorem C18_frame_rate_sweep :
-  (forall n, n <= 6100 -> ufloat_rt (f32_of_dec false n (-2)) = true)
-  /\ (forall n, In n standard_rates -> ufloat_rt (f32_of_dec false n (-3)) = true).
-Proof. exact frame_rate_sweep. Qed.
-Check C18_frame_rate_sweep :
-  (forall n, n <= 6100 -> ufloat_rt (f32_of_dec false n (-2)) = true)
-  /\ (forall n, In n standard_rates -> ufloat_rt (f32_of_dec false n (-3)) = true).
-Print Assumptions C18_frame_rate_sweep.
-
-Theorem C18_time_offset_sweep : forall n, n <= 3000 ->
-  float_rt (f32_of_dec false n (-1)) = true /\ float_rt (f32_of_dec true n (-1)) = true.
-Proof. exact time_offset_sweep. Qed.
-Check C18_time_offset_sweep : forall n, n <= 3000 ->
-  float_rt (f32_of_dec false n (-1)) = true /\ float_rt (f32_of_dec true n (-1)) = true.
-Print Assumptions C18_time_offset_sweep.
-
 (* two steps towards the unbounded float statements, proved for every format and every rational: the rounding the modelled
    parser applies (Model/Float.v rnd_pos: exponent from a log2 estimate, floor, round-half-even, renormalisation) depends on
    the VALUE n/d only, not on how numerator and denominator are written (so "1.50", "1.5" and "15e-1" cannot round
